@@ -2027,7 +2027,14 @@ class Manager(utils.EventEmitter):
             # Make sure on_pairing emits after key update.
             await self.device.update_keys(str(identity_address), keys)
         # Notify the device
-        self.device.on_pairing(session.connection, identity_address, keys, session.sc)
+        # Only MITM-protected association models authenticate the peer
+        self.device.on_pairing(
+            session.connection,
+            identity_address,
+            keys,
+            session.sc,
+            session.pairing_method != PairingMethod.JUST_WORKS,
+        )
 
     def on_pairing_failure(self, session: Session, reason: ErrorCode) -> None:
         self.device.on_pairing_failure(session.connection, reason)
